@@ -4,8 +4,8 @@ import HdVerif.Model.Basic
 
 A store of *regions* (one region = one allocation together with everything reachable from it: a dataset with its
 nested sequences and items, an array buffer with all its views).  `deepcopy`, `astype`, arithmetic, constructors
-allocate a **fresh** region; attribute / item access, `x[...]`, `reshape`, `np.newaxis` yield a **view** into the
-same region; `x.__class__ = …`, attribute / item assignment, `x *= …`, `append` **write** the region; a nested converter called
+allocate a **fresh** region; attribute / item access, `x[...]`, `reshape`, `np.newaxis` yield a **view**: the same region, or
+(for attributes and items) an object that was stored there earlier — stores of references are recorded as labelled **links**; `x.__class__ = …`, attribute / item assignment, `x *= …`, `append` **write** the region; a nested converter called
 with `copy=False` writes it and everything reachable from it (**deep** write; assignments of references are recorded as links).  Conditions other than the `copy` flag are opaque: a valuation (bit mask)
 decides every branch, and the theorems quantify over all valuations.
 
@@ -14,32 +14,36 @@ The programs are not written by hand: `translate/targets_C20.py` extracts them f
 -/
 namespace HdVerif.Aliasing
 
-/-- a reference: the region it points into, and whether it is that region's root object itself -/
+/-- a reference: the regions the object it denotes may live in (a may-point-to set: an attribute `x.f` is either a part
+of `x`'s own allocation or an object that was stored under `f` earlier), and whether it is an allocation's root object itself -/
 structure Ref where
-  region : Nat
+  regions : List Nat
   root : Bool
   deriving DecidableEq, Repr
 
 inductive Expr
   /-- local variable or parameter (numbered by the extractor) -/
   | var (x : Nat)
-  /-- sub-object / attribute / item / numpy view of what `e` refers to -/
-  | view (e : Expr)
+  /-- `view f e`: what is reached from `e` through field `f` — label 0: the same object seen differently (`reshape`,
+  `np.asarray`, `cast`); label 1: an item (`x[...]`, iteration); labels ≥ 2: attribute names (numbered per program) -/
+  | view (f : Nat) (e : Expr)
   /-- a newly allocated object (deepcopy, astype, arithmetic, constructor, unknown call result) -/
   | fresh
+  /-- either of two (used by the extractor to merge the arms of a branch of a long constructor: a weak update) -/
+  | join (a : Expr) (b : Expr)
   deriving Repr
 
 inductive Stmt
   | assign (x : Nat) (e : Expr)
   /-- in-place modification of the object `e` refers to itself (attribute / item assignment, `__class__ = …`, `*=`,
-  `append`): only its own region -/
+  `append`): every region it may live in -/
   | write (e : Expr)
-  /-- recursive in-place conversion (a converter called with `copy=False`): the region of `e` and every region reachable
-  from it through links -/
+  /-- recursive in-place conversion (a converter called with `copy=False`): the regions of `e` and every region reachable
+  from them through links -/
   | writeDeep (e : Expr)
-  /-- from now on the object `a` refers to holds a reference to what `b` refers to (attribute / item assignment,
-  `append`, a list literal or constructor call keeping its arguments): writing `a`'s region may write `b`'s -/
-  | link (a : Expr) (b : Expr)
+  /-- from now on the object `a` refers to holds, under field `f`, a reference to what `b` refers to (attribute / item
+  assignment, `append`, a list literal or constructor call keeping its arguments) -/
+  | link (a : Expr) (f : Nat) (b : Expr)
   /-- branch on opaque condition `c` (condition 0 is the `copy` flag where a converter has one) -/
   | ite (c : Nat) (t : List Stmt) (e : List Stmt)
   | ret (e : Expr)
@@ -48,33 +52,44 @@ inductive Stmt
 
 abbrev Prog := List Stmt
 
-/-- contents are abstract: one natural number per region (any injective encoding of the real content) -/
+/-- contents are abstract: one natural number per region (any injective encoding of the real content);
+a link is (holder region, field label, target region) -/
 structure State where
   env : List (Nat × Ref)
   next : Nat
   store : Nat → Nat
-  links : List (Nat × Nat)
+  links : List (Nat × Nat × Nat)
   writes : List Nat
   result : Option Ref
   halted : Bool
 
 def lookup (env : List (Nat × Ref)) (x : Nat) : Option Ref := (env.find? (·.1 == x)).map (·.2)
 
+/-- regions stored under field `f` of an object living in one of `rs` -/
+def targets (links : List (Nat × Nat × Nat)) (rs : List Nat) (f : Nat) : List Nat :=
+  (links.filter fun l => rs.contains l.1 && l.2.1 == f).map (·.2.2)
+
 /-- evaluate an expression: the reference it yields and the next free region id (a variable that was never bound
 refers to something unrelated to the inputs: a fresh region) -/
-def eval (env : List (Nat × Ref)) (next : Nat) : Expr → Ref × Nat
+def eval (env : List (Nat × Ref)) (links : List (Nat × Nat × Nat)) (next : Nat) : Expr → Ref × Nat
   | .var x => match lookup env x with
     | some r => (r, next)
-    | none => (⟨next, true⟩, next + 1)
-  | .view e => (⟨(eval env next e).1.region, false⟩, (eval env next e).2)
-  | .fresh => (⟨next, true⟩, next + 1)
+    | none => (⟨[next], true⟩, next + 1)
+  | .view f e =>
+    let r := eval env links next e
+    (⟨r.1.regions ++ (if f = 0 then [] else targets links r.1.regions f), false⟩, r.2)
+  | .fresh => (⟨[next], true⟩, next + 1)
+  | .join a b =>
+    let ra := eval env links next a
+    let rb := eval env links ra.2 b
+    (⟨ra.1.regions ++ rb.1.regions, false⟩, rb.2)
 
-/-- one round of following links from the regions seen so far -/
-def step (links : List (Nat × Nat)) (seen : List Nat) : List Nat :=
-  links.foldl (fun acc p => if acc.contains p.1 && !acc.contains p.2 then p.2 :: acc else acc) seen
+/-- one round of following links (whatever their label) from the regions seen so far -/
+def step (links : List (Nat × Nat × Nat)) (seen : List Nat) : List Nat :=
+  links.foldl (fun acc p => if acc.contains p.1 && !acc.contains p.2.2 then p.2.2 :: acc else acc) seen
 
 /-- regions reachable from `seen` through at most `fuel` rounds of links -/
-def closure (links : List (Nat × Nat)) : Nat → List Nat → List Nat
+def closure (links : List (Nat × Nat × Nat)) : Nat → List Nat → List Nat
   | 0, seen => seen
   | fuel + 1, seen => closure links fuel (step links seen)
 
@@ -84,30 +99,32 @@ write has on the content of a region -/
 def exec (v : Nat) (w : Nat → Nat → Nat) : Stmt → State → State
   | .assign x e, s =>
     if s.halted then s else
-    let rn := eval s.env s.next e
+    let rn := eval s.env s.links s.next e
     { s with env := (x, rn.1) :: s.env, next := rn.2 }
   | .write e, s =>
     if s.halted then s else
-    let rn := eval s.env s.next e
-    { s with next := rn.2, writes := rn.1.region :: s.writes,
-             store := fun k => if k = rn.1.region then w k (s.store k) else s.store k }
-  | .writeDeep e, s =>
-    if s.halted then s else
-    let rn := eval s.env s.next e
-    let hit := closure s.links (s.links.length + 1) [rn.1.region]
+    let rn := eval s.env s.links s.next e
+    let hit := rn.1.regions
     { s with next := rn.2, writes := hit ++ s.writes,
              store := fun k => if hit.contains k then w k (s.store k) else s.store k }
-  | .link a b, s =>
+  | .writeDeep e, s =>
     if s.halted then s else
-    let ra := eval s.env s.next a
-    let rb := eval s.env ra.2 b
-    { s with next := rb.2, links := (ra.1.region, rb.1.region) :: s.links }
+    let rn := eval s.env s.links s.next e
+    let hit := closure s.links (s.links.length + 1) rn.1.regions
+    { s with next := rn.2, writes := hit ++ s.writes,
+             store := fun k => if hit.contains k then w k (s.store k) else s.store k }
+  | .link a f b, s =>
+    if s.halted then s else
+    let ra := eval s.env s.links s.next a
+    let rb := eval s.env s.links ra.2 b
+    { s with next := rb.2,
+             links := (ra.1.regions.flatMap fun x => rb.1.regions.map fun y => (x, f, y)) ++ s.links }
   | .ite c t e, s =>
     if s.halted then s else
     if v.testBit c then execList v w t s else execList v w e s
   | .ret e, s =>
     if s.halted then s else
-    let rn := eval s.env s.next e
+    let rn := eval s.env s.links s.next e
     { s with next := rn.2, result := some rn.1, halted := true }
   | .raise, s => if s.halted then s else { s with halted := true }
 
@@ -118,7 +135,7 @@ end
 
 /-- initial state: parameter `i` (variables `0 … nIn-1`) is the root of region `i`; everything else is unallocated -/
 def init (nIn : Nat) (store : Nat → Nat) : State :=
-  { env := (List.range nIn).map (fun i => (i, ⟨i, true⟩)), next := nIn, store := store, links := [], writes := [], result := none,
+  { env := (List.range nIn).map (fun i => (i, ⟨[i], true⟩)), next := nIn, store := store, links := [], writes := [], result := none,
     halted := false }
 
 def run (p : Prog) (nIn : Nat) (v : Nat) (w : Nat → Nat → Nat) (store : Nat → Nat) : State :=
@@ -159,7 +176,7 @@ def copyLeavesOriginal (e : Entry) : Bool :=
     !v.testBit 0 ||
       ((summary e.prog e.nIn v).1.all (fun r => decide (e.nIn ≤ r)) &&
        match (summary e.prog e.nIn v).2.1 with
-       | some r => decide (e.nIn ≤ r.region)
+       | some r => r.regions.all fun k => decide (e.nIn ≤ k)
        | none => true)
 
 /-- with `copy = False` (bit 0 clear) whatever is returned is the very object that was passed in (region 0, root) -/
@@ -167,7 +184,7 @@ def nocopyReturnsSame (e : Entry) : Bool :=
   (List.range (2 ^ e.nCond)).all fun v =>
     v.testBit 0 ||
       match (summary e.prog e.nIn v).2.1 with
-      | some r => r == ⟨0, true⟩
+      | some r => r == ⟨[0], true⟩
       | none => true
 
 end HdVerif.Aliasing
